@@ -45,7 +45,7 @@ COMPONENTS = {
 }
 ASSUMPTIONS = ['pids and tags of one kind per history, strings without the "." separator (as the property quantifies)',
                'a missing key may raise different exception types in the two persisters (compared as "raises")']
-EXPECTED_COUNTERS = ['op:runloaded', 'probe:ran_process_from_loaded_checkpoint', 'op:save', 'op:load', 'op:list', 'op:listp', 'op:del', 'op:delall', 'op:advance', 'op:restart',
+EXPECTED_COUNTERS = ['probe:two_pickle_persisters_on_one_directory', 'op:runloaded', 'probe:ran_process_from_loaded_checkpoint', 'op:save', 'op:load', 'op:list', 'op:listp', 'op:del', 'op:delall', 'op:advance', 'op:restart',
                      'probe:load_after_progress', 'probe:load_after_overwrite', 'probe:delete_absent', 'probe:load_absent',
                      'fault:open_error', 'fault:torn_write', 'kind:int', 'kind:uuid', 'kind:str']
 PROGRAM_CFG = {'max_steps': 4, 'p_async': 0.9, 'max_awaits': 2, 'rets': ['value', 'stop', 'raise'],
